@@ -455,6 +455,8 @@ type Op struct {
 	URI int `json:"uri,omitempty"`
 	// Stack: reopen / switch (when the instance is opened by it): the storage wrapper stack (see world.stack)
 	Stack int `json:"stack,omitempty"`
+	// IDForm: import / importbad with a requested id: which spelling of "user-id-<uid>" is requested (see userIDf)
+	IDForm int `json:"idform,omitempty"`
 	// Bad: importbad: the EC private key handed to ImportPrivateKey is not on the key type's curve: "curve" = a valid key
 	// of another curve, "offcurve" = the right curve's key with its point moved off the curve
 	Bad string `json:"bad,omitempty"`
@@ -485,6 +487,49 @@ type SnapItem struct {
 }
 
 func userID(n int) string { return fmt.Sprintf("user-id-%d", n) }
+
+// caller-chosen ids come in SPELLINGS: strings a careless layer may take for one another (blanks around, another case,
+// a trailing line end or slash, an escaped character).  To the key manager an id is an opaque exact string: the id it
+// checks, the id it stores under and the id it returns are the caller's string, and two spellings are two ids.
+const nIDForms = 9
+
+func userIDf(n, form int) string {
+	s := userID(n)
+
+	switch form % nIDForms {
+	case 1:
+		return s + " "
+	case 2:
+		return " " + s
+	case 3:
+		return strings.ToUpper(s)
+	case 4:
+		return s + "\n"
+	case 5:
+		return s + "/"
+	case 6:
+		return "\t" + s + "\t"
+	case 7:
+		return strings.Replace(s, "-", "%2D", 1)
+	case 8:
+		return s + "\x00"
+	}
+
+	return s
+}
+
+// userNum: the model's number of a caller-chosen id (exact string), -1 for any other string.
+func userNum(id string) int {
+	for n := 0; n <= 9; n++ {
+		for f := 0; f < nIDForms; f++ {
+			if id == userIDf(n, f) {
+				return n + 100*f
+			}
+		}
+	}
+
+	return -1
+}
 
 const bogusID = "id-never-issued"
 
@@ -631,8 +676,7 @@ func (w *world) modelID(id string, pos int, obsv *localkms.LocalKMS) string {
 
 	m := ""
 
-	var n int
-	if _, err := fmt.Sscanf(id, "user-id-%d", &n); err == nil {
+	if n := userNum(id); n >= 0 {
 		m = fmt.Sprintf("(KUser %d)", n)
 	} else if id == bogusID {
 		m = "(KUser 99)"
@@ -766,14 +810,14 @@ func (w *world) apply(pos int, op Op) Obs {
 	case "import":
 		var opts []kmsapi.PrivateKeyOpts
 		if op.UID > 0 {
-			opts = append(opts, kmsapi.WithKeyID(userID(op.UID)))
+			opts = append(opts, kmsapi.WithKeyID(userIDf(op.UID, op.IDForm)))
 		}
 
 		id, kh, err = w.kms.ImportPrivateKey(w.poolKey(op).priv, kmsapi.KeyType(op.KT), opts...)
 	case "importbad":
 		var opts []kmsapi.PrivateKeyOpts
 		if op.UID > 0 {
-			opts = append(opts, kmsapi.WithKeyID(userID(op.UID)))
+			opts = append(opts, kmsapi.WithKeyID(userIDf(op.UID, op.IDForm)))
 		}
 
 		func() {
@@ -919,7 +963,7 @@ func (w *world) apply(pos int, op Op) Obs {
 
 	// caller-chosen and bogus ids enter the table even when nothing was stored under them
 	if (op.Kind == "import" || op.Kind == "importbad") && op.UID > 0 {
-		w.modelID(userID(op.UID), pos, obsv)
+		w.modelID(userIDf(op.UID, op.IDForm), pos, obsv)
 	}
 
 	if w.refID(op.Ref) == bogusID && (op.Kind == "get" || op.Kind == "rotate" || op.Kind == "export") {
@@ -998,14 +1042,14 @@ func (w *world) coqOp(op Op) string {
 	case "import":
 		u := "None"
 		if op.UID > 0 {
-			u = fmt.Sprintf("(Some %d)", op.UID)
+			u = fmt.Sprintf("(Some %d)", op.UID+100*(op.IDForm%nIDForms))
 		}
 
 		o = fmt.Sprintf("KImport K_%s %s %d", op.KT, u, w.poolKey(op).atom)
 	case "importbad":
 		u := "None"
 		if op.UID > 0 {
-			u = fmt.Sprintf("(Some %d)", op.UID)
+			u = fmt.Sprintf("(Some %d)", op.UID+100*(op.IDForm%nIDForms))
 		}
 
 		o = fmt.Sprintf("KImportBad K_%s %s %d", op.KT, u, 3000+op.seq)
@@ -1084,7 +1128,7 @@ func runHistory(kind string, ops []Op, seed *hx.Rng, tr *hx.Trace) {
 		op := ops[i]
 		w.resolved[opKey(op)] = w.refID(op.Ref)
 		old := w.refID(op.Ref)
-		_, userWasLive := live[userID(op.UID)]
+		_, userWasLive := live[userIDf(op.UID, op.IDForm)]
 
 		o := w.apply(i, op)
 		obs = append(obs, o)
@@ -1122,10 +1166,10 @@ func runHistory(kind string, ops []Op, seed *hx.Rng, tr *hx.Trace) {
 			}
 
 			if op.Kind == "import" && op.UID > 0 {
-				if o.ID != userID(op.UID) {
-					fail("import:requested-id-ignored", fmt.Sprintf("op %d: import of a %s key asked for id %q, got %q", i, op.KT, userID(op.UID), o.ID))
+				if o.ID != userIDf(op.UID, op.IDForm) {
+					fail("import:requested-id-ignored", fmt.Sprintf("op %d: import of a %s key asked for id %q, got %q", i, op.KT, userIDf(op.UID, op.IDForm), o.ID))
 				} else if userWasLive {
-					fail("import:overwrite", fmt.Sprintf("op %d: import under the id %q that was in use succeeded", i, userID(op.UID)))
+					fail("import:overwrite", fmt.Sprintf("op %d: import under the id %q that was in use succeeded", i, userIDf(op.UID, op.IDForm)))
 				}
 			}
 
@@ -1705,6 +1749,9 @@ func alphabet(kts []string, full bool) []Op {
 				for f := 1; f <= 3; f++ {
 					a = append(a, Op{Kind: "import", KT: kt, UID: 1, Key: 1, Crash: -1, Ref: -1, FailAt: f})
 				}
+
+				a = append(a, Op{Kind: "import", KT: kt, UID: 1, Key: 1, IDForm: 1, Crash: -1, Ref: -1},
+					Op{Kind: "import", KT: kt, UID: 1, Key: 1, IDForm: 3, Crash: -1, Ref: -1})
 			}
 		}
 	}
@@ -1784,6 +1831,10 @@ func randomHistory(r *hx.Rng, n int) []Op {
 
 			kt := imp[r.Intn(len(imp))]
 			o = Op{Kind: "import", KT: kt.name, UID: r.Intn(4), Key: r.Intn(2), Ref: -1, Crash: -1}
+
+			if o.UID > 0 && r.Intn(2) == 0 {
+				o.UID, o.IDForm = 1+r.Intn(2), r.Intn(nIDForms) // several spellings of few ids meet in one store
+			}
 
 			if kt.imp == "ec" && r.Intn(5) == 0 {
 				o.Kind, o.Bad = "importbad", []string{"curve", "offcurve"}[r.Intn(2)]
@@ -2040,6 +2091,29 @@ func main() {
 						{Kind: "get", Ref: 1, Crash: -1},
 					}, next(), tr)
 				}
+			}
+		}
+	}
+
+	// spellings of one caller-chosen id, every importable key type x every spelling, in both orders: an import under a
+	// spelling of an id in use is an import under ANOTHER id (stored under exactly that string, returned as that string,
+	// the first entry untouched); importing under either spelling again is refused
+	for _, kt := range append(append([]ktInfo{}, ktypes...), extraTypes...) {
+		if kt.imp == "" {
+			continue
+		}
+
+		for f := 1; f < nIDForms; f++ {
+			for _, order := range [][2]int{{0, f}, {f, 0}} {
+				runHistory("sweep-idspelling", []Op{
+					{Kind: "import", KT: kt.name, UID: 1, IDForm: order[0], Key: 0, Ref: -1, Crash: -1},
+					{Kind: "import", KT: kt.name, UID: 1, IDForm: order[1], Key: 1, Ref: -1, Crash: -1},
+					{Kind: "get", Ref: 0, Crash: -1}, {Kind: "get", Ref: 1, Crash: -1},
+					{Kind: "import", KT: kt.name, UID: 1, IDForm: order[1], Key: 0, Ref: -1, Crash: -1},
+					{Kind: "import", KT: kt.name, UID: 1, IDForm: order[0], Key: 1, Ref: -1, Crash: -1},
+					{Kind: "reopen", Ref: -1, Crash: -1, URI: 1},
+					{Kind: "get", Ref: 0, Crash: -1}, {Kind: "get", Ref: 1, Crash: -1},
+				}, next(), tr)
 			}
 		}
 	}
